@@ -98,7 +98,7 @@ def failure(src: str, datas: list[Any]):
     s1 = s1o.value
     o2 = drv.parse(e, s1)
     if not o2.ok:
-        return ("reparse-error", f"str() of {src!r:.150} is {s1!r:.150}, which does not parse: {o2.err_class}: {str(o2.exc)[:80]}", {"str": s1})
+        return ("reparse-error", f"str() of {src!r:.150} is {s1!r:.150}, which does not parse: {o2.err_class}: {drv.safe_str(o2.exc)[:80]}", {"str": s1})
     t2 = o2.value
     any_ok = False
     for dj in datas:
